@@ -66,7 +66,7 @@ def main():
             return 1
         rc = 0
         for cid in sys.argv[3:]:
-            env2 = dict(os.environ, VERIF_REPO=d)
+            env2 = dict(os.environ, VERIF_REPO=d, VERIF_EVIDENCE_DIR='/dev/shm/seed-evidence')
             r = sh(['/verif/check.py', cid, '--tier', os.environ.get('SEED_TIER', 'quick')], env=env2, cwd='/verif')
             lines = [l for l in r.stdout.splitlines() if l.startswith(('VIOLATION', 'violation', cid, 'KNOWN', 'regression'))]
             print(f'--- {cid} exit={r.returncode}')
